@@ -45,10 +45,10 @@ def run(ctx):
     # writers use octets with the VarInt value unchanged
     f = A.fn("<wtransport_proto::bytes::BufferWriter as wtransport_proto::bytes::BytesWriter>::put_varint")
     ev = [e for p in nonpanic(walk(f)) for e in event_strs(p)]
-    ctx.check("C14-R1", "BufferWriter::put_varint", any(re.match(r"^OctetsMut::put_varint\(&\*self\.0,VarInt::into_inner\(varint\)\)$", e) for e in ev), "BufferWriter::put_varint does not call octets put_varint(varint.into_inner()): %s" % ev[:3], where(f))
+    ctx.check("C14-R1", "BufferWriter::put_varint", any(re.match(r"^OctetsMut::put_varint\(self\.0,VarInt::into_inner\(varint\)\)$", e) for e in ev), "BufferWriter::put_varint does not call octets put_varint(varint.into_inner()): %s" % ev[:3], where(f))
     f = A.fn("<wtransport_proto::bytes::BufferReader as wtransport_proto::bytes::BytesReader>::get_varint")
     ev = [e for p in nonpanic(walk(f)) for e in event_strs(p)]
-    ctx.check("C14-R1", "BufferReader::get_varint", any(re.match(r"^Octets::get_varint\(&\*self\.0\)$", e) for e in ev), "BufferReader::get_varint does not call octets get_varint", where(f))
+    ctx.check("C14-R1", "BufferReader::get_varint", any(re.match(r"^Octets::get_varint\(self\.0\)$", e) for e in ev), "BufferReader::get_varint does not call octets get_varint", where(f))
 
     ctx.rule("C14-R2", "parse/id pairs are mutual inverses over the registered constants")
     shared.registry_values(ctx, "C14-R2", which=("frames", "streams", "settings"))
@@ -60,31 +60,34 @@ def run(ctx):
     ctx.rule("C14-R3", "write == write_size terms == reader fields for Frame, StreamHeader, Datagram; write_async == write")
     shared.preamble_writers(ctx, "C14-R3")
     f = A.fn("wtransport_proto::frame::Frame::write_size")
-    LEN = r"VarInt::size\(Result::expect\(<VarInt as TryFrom<u64>>::try_from\(\(<impl \[T\]>::len\(&\*self\.payload\) as u64\)\),[^()]*\)\)"
+    LEN = r"VarInt::size\(Result::expect\(<VarInt as TryFrom<u64>>::try_from\(\(<impl \[T\]>::len\(self\.payload\) as u64\)\),[^()]*\)\)"
     rows = [
-        {"name": "WT: size(kind)+size(session)", "atoms": [r"^Frame::session_id\(&\*self\) is Some$"], "leaf": r"^return AddWithOverflow\(VarInt::size\(FrameKind::id\(\*self\.kind\)\),VarInt::size\(SessionId::into_varint\(\(Frame::session_id\(&\*self\) as Some\)\.0\)\)\)\.0$"},
-        {"name": "other: size(kind)+size(len)+len", "atoms": [r"^Frame::session_id\(&\*self\) is None$"], "leaf": r"^return AddWithOverflow\(AddWithOverflow\(VarInt::size\(FrameKind::id\(\*self\.kind\)\),%s\)\.0,<impl \[T\]>::len\(&\*self\.payload\)\)\.0$" % LEN},
+        {"name": "WT: size(kind)+size(session)", "atoms": [r"^Frame::session_id\(self\) ok$"], "leaf": r"^return AddWithOverflow\(VarInt::size\(FrameKind::id\(self\.kind\)\),VarInt::size\(SessionId::into_varint\(ok\(Frame::session_id\(self\)\)\)\)\)\.0$"},
+        {"name": "other: size(kind)+size(len)+len", "atoms": [r"^Frame::session_id\(self\) fails$"], "leaf": r"^return AddWithOverflow\(AddWithOverflow\(VarInt::size\(FrameKind::id\(self\.kind\)\),%s\)\.0,<impl \[T\]>::len\(self\.payload\)\)\.0$" % LEN},
     ]
     match_table(ctx, "C14-R3", f, walk(f), rows, "Frame::write_size")
     f = A.fn("wtransport_proto::stream_header::StreamHeader::write_size")
     rows = [
-        {"name": "WT: size(kind)+size(session)", "atoms": [r"^StreamHeader::session_id\(&\*self\) is Some$"], "leaf": r"^return AddWithOverflow\(VarInt::size\(StreamKind::id\(\*self\.kind\)\),VarInt::size\(SessionId::into_varint\(\(StreamHeader::session_id\(&\*self\) as Some\)\.0\)\)\)\.0$"},
-        {"name": "other: size(kind)", "atoms": [r"^StreamHeader::session_id\(&\*self\) is None$"], "leaf": r"^return VarInt::size\(StreamKind::id\(\*self\.kind\)\)$"},
+        {"name": "WT: size(kind)+size(session)", "atoms": [r"^StreamHeader::session_id\(self\) ok$"], "leaf": r"^return AddWithOverflow\(VarInt::size\(StreamKind::id\(self\.kind\)\),VarInt::size\(SessionId::into_varint\(ok\(StreamHeader::session_id\(self\)\)\)\)\)\.0$"},
+        {"name": "other: size(kind)", "atoms": [r"^StreamHeader::session_id\(self\) fails$"], "leaf": r"^return VarInt::size\(StreamKind::id\(self\.kind\)\)$"},
     ]
     match_table(ctx, "C14-R3", f, walk(f), rows, "StreamHeader::write_size")
     shared.reader_sequences(ctx, "C14-R3")
+
+    ctx.rule("C14-R7", "async writers emit each field exactly once: the slice handed to poll_write is the unwritten rest, progress is kept in the future across Pending")
+    shared.poll_loops(ctx, "C14-R7")
 
     ctx.rule("C14-R4", "too-small destination untouched: the first put_* is dominated by capacity >= write_size()")
     for ty, mod in (("Frame", "frame"), ("StreamHeader", "stream_header")):
         f = A.fn("wtransport_proto::%s::%s::write_to_buffer" % (mod, ty))
         rows = [
-            {"name": "too small->Err, no write", "atoms": [r"^BufferWriter::capacity\(&\*buffer_writer\) < %s::write_size\(&\*self\)$" % ty], "not_events": [r"::write\("], "leaf": r"^return Result::Err\(EndOfBuffer\)$"},
-            {"name": "fits->write", "atoms": [r"^BufferWriter::capacity\(&\*buffer_writer\) >= %s::write_size\(&\*self\)$" % ty], "events": [r"^%s::write\(&\*self,&\*buffer_writer\)$" % ty], "leaf": r"^return Result::Ok\(\(\)\)$"},
+            {"name": "too small->Err, no write", "atoms": [r"^BufferWriter::capacity\(buffer_writer\) < %s::write_size\(self\)$" % ty], "not_events": [r"::write\("], "leaf": r"^return Result::Err\(EndOfBuffer\)$"},
+            {"name": "fits->write", "atoms": [r"^BufferWriter::capacity\(buffer_writer\) >= %s::write_size\(self\)$" % ty], "events": [r"^%s::write\(self,buffer_writer\)$" % ty], "leaf": r"^return Result::Ok\(\(\)\)$"},
         ]
         match_table(ctx, "C14-R4", f, walk(f), rows, "%s::write_to_buffer" % ty)
     f = A.fn("wtransport_proto::datagram::Datagram::write")
     ps = nonpanic(walk(f))
-    bad = [path_sig(p) for p in ps if any("put_" in e for e in event_strs(p)) and not any(re.match(r"^<impl \[T\]>::len\(&\*buffer\) >= Datagram::write_size\(&\*self\)$", a) for a in path_sig(p)[0])]
+    bad = [path_sig(p) for p in ps if any("put_" in e for e in event_strs(p)) and not any(re.match(r"^<impl \[T\]>::len\(buffer\) >= Datagram::write_size\(self\)$", a) for a in path_sig(p)[0])]
     ctx.check("C14-R4", "Datagram::write guard", not bad and len(ps) == 2, "Datagram::write writes without the capacity guard: %s" % bad, where(f))
 
     ctx.rule("C14-R5", "SETTINGS entries: [varint id.id(), varint value] written, [varint, varint] read")
